@@ -6,6 +6,10 @@
                   glob returns, each with its classes (MODE_NAME, DISABLED,
                   DEFAULT, raising constructor) or a failing import
      discover fms p   = AutonomousModeSelector.__init__: [Built r] or [Raised e calls]
+     init fms pkgname i   the same, starting one step earlier: i is what
+                  import_module(pkgname) did (an ImportError with its e.name, another
+                  exception, or the package), and the test on e.name that tells a
+                  missing package from a failing import is part of the model
      needed p     the classes with MODE_NAME and not DISABLED of the importable
                   modules other than __init__.py, in scan order
      ctor_calls r the constructor calls __init__ made, as (file, class) pairs
@@ -16,7 +20,10 @@
                   passes of its loop as (clock, autonomous+enabled?, disable()
                   called on the selector during this pass?)
      conforms     the language (on_enable . on_iteration* . on_disable)* of the
-                  property, period by period, for the selected modes *)
+                  property, period by period, for the selected modes
+     periods ops / conforms_marked   the same for call sequences of ANY shape: each
+                  period with the mark "a disable() ends it before the next one
+                  begins"; an unmarked period is on_enable . on_iteration* only *)
 From Coq Require Import String List ZArith Bool.
 From RV Require Import Selector.Model Selector.Spec Selector.Proofs.
 Import ListNotations.
@@ -111,6 +118,57 @@ Theorem C14_fms_modes_are_healthy : forall p r,
   forall k i, dict_get k (modes r) = Some i ->
     In i (needed p) /\ healthy i = true /\ (k = name_of i \/ k = renamed i).
 Proof. exact (fun p r H Hc => proj2 (fms_modes p r H Hc)). Qed.
+
+(* ---- the import of the package itself ------------------------------ *)
+
+(* An ImportError out of import_module(pkgname), no FMS: start-up raises unless
+   e.name is the package or the first component of its dotted name -- only then
+   is it "there is no such package" (tolerated, FMS or not, nothing but "None"
+   offered). *)
+Theorem C14_package_import_policy : forall pkgname ename,
+  (ename <> Some pkgname -> ename <> Some (top_component pkgname) ->
+     init false pkgname (ImportRaisesImportError ename) = Raised ErrPackage []) /\
+  (ename = Some pkgname \/ ename = Some (top_component pkgname) ->
+     forall fms, exists r, init fms pkgname (ImportRaisesImportError ename) = Built r /\ offers_nothing r).
+Proof. exact import_error_policy. Qed.
+
+(* any other exception out of the package's own code: raised *)
+Theorem C14_package_import_other_exception : forall pkgname,
+  init false pkgname ImportRaisesOther = Raised ErrPackage [].
+Proof. exact import_other_exception_policy. Qed.
+
+(* A missing module that merely lives under the same top-level name as the
+   package (same first dotted component) is a failing import, not a missing
+   package ... *)
+Theorem C14_missing_module_in_namespace_raises : forall pkgname n,
+  top_component n = top_component pkgname -> n <> pkgname -> n <> top_component pkgname ->
+  init false pkgname (ImportRaisesImportError (Some n)) = Raised ErrPackage [].
+Proof. exact missing_module_in_namespace_raises. Qed.
+
+(* ... e.g. a sub-module the package's __init__ needs ("from .helper import X") ... *)
+Theorem C14_missing_submodule_raises : forall pkgname sub,
+  init false pkgname (ImportRaisesImportError (Some (pkgname ++ "." ++ sub)%string)) = Raised ErrPackage [].
+Proof. exact missing_submodule_raises. Qed.
+
+(* ... or a module of the parent package ("import robot.helpers" in
+   robot/autonomous/__init__.py; [top] has no dot) *)
+Theorem C14_missing_sibling_raises : forall top rest sub,
+  top_component top = top -> sub <> rest ->
+  init false (top ++ "." ++ rest)%string (ImportRaisesImportError (Some (top ++ "." ++ sub)%string))
+  = Raised ErrPackage [].
+Proof. exact missing_sibling_raises. Qed.
+
+(* no FMS, from the import on: raises exactly when the import of the package
+   fails (other than "no such package") or the layout has one of the faults *)
+Theorem C14_init_no_fms_raises_iff : forall pkgname i,
+  let p := import_outcome pkgname i in
+  (exists e c, init false pkgname i = Raised e c) <->
+  (package_import_fault pkgname i \/ import_fault p \/ ctor_fault p \/ duplicate_names p \/ several_defaults p).
+Proof. exact init_no_fms_raises_iff. Qed.
+
+(* FMS attached: never raises, whatever the import did *)
+Theorem C14_init_fms_never_raises : forall pkgname i, exists r, init true pkgname i = Built r.
+Proof. exact init_fms_never_raises. Qed.
 
 (* ---- selection ---------------------------------------------------- *)
 
@@ -209,6 +267,58 @@ Theorem C14_timed_period_exact : forall r st s now nows,
    Some (mkL None (Some now) (robot_exit st))).
 Proof. exact timed_period_exact. Qed.
 
+(* ---- periods that are not followed by disable() --------------------- *)
+
+(* start() enables the mode selected NOW, whatever an earlier period left in
+   self.active_mode (no hypothesis on the state) ... *)
+Theorem C14_start_selects_afresh : forall r st s now,
+  do_start r st s now =
+  (mkL (select r s) (Some now) (robot_exit st),
+   match select r s with Some m => [OnEnable m] | None => [] end).
+Proof. exact start_selects_afresh. Qed.
+
+(* ... and so does run(): C14_run_period_exact from ANY state *)
+Theorem C14_run_period_exact_any : forall r st s t0 wakes,
+  do_run r st s t0 wakes =
+  (mkL None (timer st) (robot_exit st),
+   match select r s with
+   | None => []
+   | Some m => OnEnable m ::
+               map (OnIteration m)
+                   (if robot_exit st then [] else map (fun now => now - t0)%Z (live_prefix wakes)) ++
+               [OnDisable m]
+   end).
+Proof. exact run_period_exact_any. Qed.
+
+(* TimedRobot without disable(): start . periodic^n . start . periodic^k delivers
+   on_enable . on_iteration^n to the mode selected at the first start() and
+   on_enable . on_iteration^k to the mode selected at the second one -- nothing
+   at all if that selection is "None" -- from any state; the first mode hears
+   nothing after the second start() *)
+Theorem C14_period_after_open_period : forall r st s1 now1 nows1 s2 now2 nows2,
+  run_ops r st (Start s1 now1 :: map Periodic nows1 ++ Start s2 now2 :: map Periodic nows2) =
+  (open_period r s1 now1 nows1 ++ open_period r s2 now2 nows2,
+   Some (mkL (select r s2) (Some now2) (robot_exit st))).
+Proof. exact period_after_open_period. Qed.
+
+(* EVERY call sequence in which periodic() does not precede the first start()
+   (periods following one another without disable(), start() and run() mixed at
+   will), monotone clock: period by period the mode selected when the period
+   begins gets on_enable . on_iteration(t)*, 0 <= t non-decreasing, and on_disable
+   exactly if a disable() ends the period before the next one begins; no
+   AttributeError *)
+Theorem C14_lifecycle_any_periods : forall r ops,
+  timer_ready false ops = true -> clock_monotone ops ->
+  conforms_marked r (periods ops) (trace r ops) /\ snd (run_ops r init_lstate ops) <> None.
+Proof. exact lifecycle_marked. Qed.
+
+(* ... hence no other mode receives any callback there either *)
+Theorem C14_only_selected_modes_any_periods : forall r ops,
+  timer_ready false ops = true -> clock_monotone ops ->
+  forall e, In e (trace r ops) ->
+    exists s, In s (selections ops) /\ select r s = Some (mode_of e).
+Proof. exact only_selected_modes_marked. Qed.
+
 (* ---- the package-import policy; where the code is narrower than the wording (open findings) -- *)
 
 (* [repaired, /repo 87f7d89] a failing import of the package itself: raised
@@ -232,6 +342,19 @@ Theorem C14_mode_called_None_refuted :
     preselection r = "None" /\ chooser_selected (chooser_of r) None = None /\
     chooser_selected (chooser_of r) (Some "None") = None.
 Proof. exact mode_called_None_not_choosable. Qed.
+
+(* the test on e.name cannot tell "no such package" from an ImportError that names
+   the package although it exists ("from . import helper" in its __init__.py
+   raises ImportError(name=<the package>)): tolerated even without FMS *)
+Theorem C14_import_error_naming_package_refuted : forall fms pkgname,
+  exists r, init fms pkgname (ImportRaisesImportError (Some pkgname)) = Built r /\ offers_nothing r.
+Proof. exact import_error_naming_the_package_is_tolerated. Qed.
+
+(* a package missing in the MIDDLE of a dotted name is neither the name nor its
+   first component: raised without FMS, although nothing but a package is missing *)
+Theorem C14_missing_intermediate_package_refuted :
+  init false "a.b.c" (ImportRaisesImportError (Some "a.b")) = Raised ErrPackage [].
+Proof. exact missing_intermediate_package_raises. Qed.
 
 (* without well-formedness (start() twice) a mode is left without on_disable *)
 Theorem C14_ill_formed_refuted :
@@ -321,6 +444,33 @@ Proof.
   split; [unfold clock_monotone; simpl; intuition discriminate|reflexivity].
 Qed.
 
+(* robot/autonomous/__init__.py does "import robot.helpers", which does not exist:
+   raised; "robot.autonomous" or "robot" itself missing: tolerated *)
+Example ex_package_import :
+  init false "robot.autonomous" (ImportRaisesImportError (Some "robot.helpers")) = Raised ErrPackage [] /\
+  init false "robot.autonomous" (ImportRaisesImportError (Some "robot.autonomous.helper")) = Raised ErrPackage [] /\
+  init false "robot.autonomous" (ImportRaisesImportError (Some "numpy")) = Raised ErrPackage [] /\
+  init false "robot.autonomous" (ImportRaisesImportError None) = Raised ErrPackage [] /\
+  (exists r, init false "robot.autonomous" (ImportRaisesImportError (Some "robot.autonomous")) = Built r) /\
+  (exists r, init false "robot.autonomous" (ImportRaisesImportError (Some "robot")) = Built r) /\
+  top_component "robot.autonomous" = "robot".
+Proof. repeat split; try reflexivity; eexists; vm_compute; reflexivity. Qed.
+
+(* three TimedRobot periods without disable() in between, the chooser selection
+   changed from the default to "two" and then to "None": not well-formed in the
+   strict sense, covered by C14_lifecycle_any_periods; the third period is silent *)
+Example ex_open_periods :
+  exists r, discover false ex_pkg = Built r /\
+  let ops := [Start (None, None) 100; Periodic 120; Start (None, Some "two") 200; Periodic 220; Periodic 240;
+              Start (None, Some "None") 300; Periodic 320; Disable]%Z in
+  well_formed ops = false /\ timer_ready false ops = true /\ clock_monotone ops /\
+  periods ops = [((None, None), false); ((None, Some "two"), false); ((None, Some "None"), true)] /\
+  trace r ops = [OnEnable ex_A; OnIteration ex_A 20; OnEnable ex_B; OnIteration ex_B 20; OnIteration ex_B 40]%Z.
+Proof.
+  eexists. split; [vm_compute; reflexivity|]. split; [reflexivity|]. split; [reflexivity|].
+  split; [unfold clock_monotone; simpl; intuition discriminate|]. split; reflexivity.
+Qed.
+
 Print Assumptions C14_constructor_calls.
 Print Assumptions C14_instantiated_exactly.
 Print Assumptions C14_raise_calls_prefix.
@@ -331,6 +481,13 @@ Print Assumptions C14_missing_package_tolerated.
 Print Assumptions C14_fms_never_raises.
 Print Assumptions C14_fms_tolerates.
 Print Assumptions C14_fms_modes_are_healthy.
+Print Assumptions C14_package_import_policy.
+Print Assumptions C14_package_import_other_exception.
+Print Assumptions C14_missing_module_in_namespace_raises.
+Print Assumptions C14_missing_submodule_raises.
+Print Assumptions C14_missing_sibling_raises.
+Print Assumptions C14_init_no_fms_raises_iff.
+Print Assumptions C14_init_fms_never_raises.
 Print Assumptions C14_selection_dashboard.
 Print Assumptions C14_selection_chooser.
 Print Assumptions C14_lifecycle.
@@ -340,7 +497,14 @@ Print Assumptions C14_run_period_exact.
 Print Assumptions C14_run_period_undisturbed.
 Print Assumptions C14_run_period_disable_mid.
 Print Assumptions C14_timed_period_exact.
+Print Assumptions C14_start_selects_afresh.
+Print Assumptions C14_run_period_exact_any.
+Print Assumptions C14_period_after_open_period.
+Print Assumptions C14_lifecycle_any_periods.
+Print Assumptions C14_only_selected_modes_any_periods.
 Print Assumptions C14_package_failure_policy.
 Print Assumptions C14_fms_key_clash_refuted.
 Print Assumptions C14_mode_called_None_refuted.
+Print Assumptions C14_import_error_naming_package_refuted.
+Print Assumptions C14_missing_intermediate_package_refuted.
 Print Assumptions C14_ill_formed_refuted.
